@@ -103,6 +103,7 @@ func main() {
 		return id
 	}
 	nEdges := 0
+	var setup [][][]byte
 	initID := -1
 	for {
 		line, err := in.ReadString('\n')
@@ -130,6 +131,18 @@ func main() {
 					}
 					ce.outs = append(ce.outs, outcome{e.R, e.B, tid})
 					nEdges++
+				} else if strings.HasPrefix(s, "SETUP ") {
+					var su struct {
+						C [][][]int `json:"c"`
+					}
+					json.Unmarshal([]byte(s[6:]), &su)
+					for _, c := range su.C {
+						argv := make([][]byte, len(c))
+						for i, a := range c {
+							argv[i] = impl.I2B(a)
+						}
+						setup = append(setup, argv)
+					}
 				} else if strings.HasPrefix(s, "INIT ") {
 					initID = intern(json.RawMessage(s[5:]))
 				}
@@ -178,6 +191,9 @@ func main() {
 		srv := impl.NewSrv(1)
 		now := time.Now().Unix()
 		shift := now - *t0
+		for _, c := range setup {
+			srv.Exec(c)
+		}
 		for _, st := range p {
 			srv.Exec(shiftAbs(st.argv, shift))
 			execs++
@@ -191,7 +207,7 @@ func main() {
 		// check that the path really leads to the source state (once per state)
 		if len(paths[sid]) > 0 || sid == initID {
 			srv, shift := replay(paths[sid])
-			if d := canon.DiffState(model(sid), srv, shift); d != "" && sid != initID {
+			if d := canon.DiffState(model(sid), srv, shift); d != "" {
 				// should not happen: the edge into sid was verified; report and do not explore from here
 				enc.Encode(failure{Kind: "state", Branch: "path-replay", Detail: "state after verified path differs", State: d})
 				failed++
